@@ -19,7 +19,10 @@ pub fn compile_profile() -> SettingsSpec {
         compact_path: Some("::parity_scale_codec::Compact".into()),
         bits_path: Some("::verif_support::DecodedBits".into()),
         compact_as: Some("::parity_scale_codec::CompactAs".into()),
-        derives_all: vec!["::parity_scale_codec::Encode".into(), "::parity_scale_codec::Decode".into()],
+        derives_all: vec![
+            "::parity_scale_codec::Encode".into(),
+            "::parity_scale_codec::Decode".into(),
+        ],
         attrs_all: vec![],
         derives_for: vec![],
         attrs_for: vec![],
@@ -28,7 +31,10 @@ pub fn compile_profile() -> SettingsSpec {
             ("bitvec::order::Msb0".into(), "::verif_support::Msb0".into()),
             ("BTreeSet<T>".into(), "::verif_support::SeqOf<T>".into()),
             ("BinaryHeap<T>".into(), "::verif_support::SeqOf<T>".into()),
-            ("BTreeMap<K, V>".into(), "::verif_support::MapOf<K, V>".into()),
+            (
+                "BTreeMap<K, V>".into(),
+                "::verif_support::MapOf<K, V>".into(),
+            ),
         ],
     }
 }
@@ -100,9 +106,11 @@ pub fn compile(cases: &[FarmCase], n_crates: usize) -> Result<FarmResult, String
     }
     ws.push_str("]\n[profile.dev]\ndebug = false\nincremental = false\n");
     std::fs::write(dir.join("Cargo.toml"), ws).map_err(|e| e.to_string())?;
-    std::fs::copy("/repo/Cargo.lock", dir.join("Cargo.lock")).map_err(|e| format!("copy Cargo.lock: {e}"))?;
+    std::fs::copy("/repo/Cargo.lock", dir.join("Cargo.lock"))
+        .map_err(|e| format!("copy Cargo.lock: {e}"))?;
     std::fs::create_dir_all(dir.join(".cargo")).map_err(|e| e.to_string())?;
-    std::fs::write(dir.join(".cargo/config.toml"), "[net]\noffline = true\n").map_err(|e| e.to_string())?;
+    std::fs::write(dir.join(".cargo/config.toml"), "[net]\noffline = true\n")
+        .map_err(|e| e.to_string())?;
     let dep = "parity-scale-codec = { version = \"3.6.12\", features = [\"derive\"] }\n";
     std::fs::create_dir_all(dir.join("verif_support/src")).map_err(|e| e.to_string())?;
     std::fs::write(
@@ -150,12 +158,17 @@ pub fn compile(cases: &[FarmCase], n_crates: usize) -> Result<FarmResult, String
     let mut other_errors = vec![];
     for line in stderr.lines() {
         // cc3/src/lib.rs:17:2345: error[E0072]: recursive type ...
-        let Some((loc, rest)) = line.split_once(": error") else { continue };
+        let Some((loc, rest)) = line.split_once(": error") else {
+            continue;
+        };
         let mut parts = loc.split(':');
         let file = parts.next().unwrap_or("");
         let lineno: Option<usize> = parts.next().and_then(|s| s.parse().ok());
         let krate = file.split('/').next().unwrap_or("");
-        let Some(k) = krate.strip_prefix("cc").and_then(|s| s.parse::<usize>().ok()) else {
+        let Some(k) = krate
+            .strip_prefix("cc")
+            .and_then(|s| s.parse::<usize>().ok())
+        else {
             if !line.contains("could not compile") && !line.contains("aborting due to") {
                 other_errors.push(line.to_string());
             }
@@ -163,12 +176,24 @@ pub fn compile(cases: &[FarmCase], n_crates: usize) -> Result<FarmResult, String
         };
         let Some(ln) = lineno else { continue };
         // line 1 is the #![allow]; cases start at line 2
-        let Some(case) = ln.checked_sub(2).and_then(|i| line_maps.get(k).and_then(|m| m.get(i))).copied() else {
+        let Some(case) = ln
+            .checked_sub(2)
+            .and_then(|i| line_maps.get(k).and_then(|m| m.get(i)))
+            .copied()
+        else {
             continue;
         };
-        let message = rest.trim_start_matches(|c| c != ':').trim_start_matches(':').trim().to_string();
+        let message = rest
+            .trim_start_matches(|c| c != ':')
+            .trim_start_matches(':')
+            .trim()
+            .to_string();
         let code = if rest.starts_with('[') {
-            rest.trim_start_matches('[').split(']').next().unwrap_or("").to_string()
+            rest.trim_start_matches('[')
+                .split(']')
+                .next()
+                .unwrap_or("")
+                .to_string()
         } else {
             // no error code: classify by the message with the quoted identifiers removed
             let mut m = String::new();
@@ -185,12 +210,24 @@ pub fn compile(cases: &[FarmCase], n_crates: usize) -> Result<FarmResult, String
             }
             m.split_whitespace().take(8).collect::<Vec<_>>().join(" ")
         };
-        errors.entry(case).or_insert(FarmError { case, code, message });
+        errors.entry(case).or_insert(FarmError {
+            case,
+            code,
+            message,
+        });
     }
     if errors.is_empty() && !out.status.success() {
         return Err(format!(
             "cargo check failed without a diagnostic that maps to a case:\n{}",
-            stderr.lines().rev().take(30).collect::<Vec<_>>().into_iter().rev().collect::<Vec<_>>().join("\n")
+            stderr
+                .lines()
+                .rev()
+                .take(30)
+                .collect::<Vec<_>>()
+                .into_iter()
+                .rev()
+                .collect::<Vec<_>>()
+                .join("\n")
         ));
     }
     if !other_errors.is_empty() && errors.is_empty() {
@@ -252,9 +289,11 @@ pub fn roundtrip(cases: &[RtCase], n_crates: usize) -> Result<RtResult, String> 
     }
     ws.push_str("]\n[profile.dev]\ndebug = false\nincremental = false\nopt-level = 0\n");
     std::fs::write(dir.join("Cargo.toml"), ws).map_err(|e| e.to_string())?;
-    std::fs::copy("/repo/Cargo.lock", dir.join("Cargo.lock")).map_err(|e| format!("copy Cargo.lock: {e}"))?;
+    std::fs::copy("/repo/Cargo.lock", dir.join("Cargo.lock"))
+        .map_err(|e| format!("copy Cargo.lock: {e}"))?;
     std::fs::create_dir_all(dir.join(".cargo")).map_err(|e| e.to_string())?;
-    std::fs::write(dir.join(".cargo/config.toml"), "[net]\noffline = true\n").map_err(|e| e.to_string())?;
+    std::fs::write(dir.join(".cargo/config.toml"), "[net]\noffline = true\n")
+        .map_err(|e| e.to_string())?;
     let dep = "parity-scale-codec = { version = \"3.6.12\", features = [\"derive\"] }\n";
     std::fs::create_dir_all(dir.join("verif_support/src")).map_err(|e| e.to_string())?;
     std::fs::write(
@@ -281,7 +320,9 @@ pub fn roundtrip(cases: &[RtCase], n_crates: usize) -> Result<RtResult, String> 
                 ));
             }
         }
-        sources[k].push_str(&format!("pub mod case_{i} {{ {one_line} pub fn run() {{ {body} }} }}\n"));
+        sources[k].push_str(&format!(
+            "pub mod case_{i} {{ {one_line} pub fn run() {{ {body} }} }}\n"
+        ));
         mains[k].push_str(&format!("    case_{i}::run();\n"));
         line_maps[k].push(i);
     }
@@ -294,7 +335,10 @@ pub fn roundtrip(cases: &[RtCase], n_crates: usize) -> Result<RtResult, String> 
             ),
         )
         .map_err(|e| e.to_string())?;
-        let src = format!("{}fn main() {{\n{}    println!(\"DONE\");\n}}\n", sources[k], mains[k]);
+        let src = format!(
+            "{}fn main() {{\n{}    println!(\"DONE\");\n}}\n",
+            sources[k], mains[k]
+        );
         std::fs::write(dir.join(m).join("src/main.rs"), src).map_err(|e| e.to_string())?;
     }
     let out = Command::new("cargo")
@@ -314,23 +358,46 @@ pub fn roundtrip(cases: &[RtCase], n_crates: usize) -> Result<RtResult, String> 
     let stderr = String::from_utf8_lossy(&out.stderr).to_string();
     let mut compile_errors: BTreeMap<usize, FarmError> = BTreeMap::new();
     for line in stderr.lines() {
-        let Some((loc, rest)) = line.split_once(": error") else { continue };
+        let Some((loc, rest)) = line.split_once(": error") else {
+            continue;
+        };
         let mut parts = loc.split(':');
         let file = parts.next().unwrap_or("");
         let lineno: Option<usize> = parts.next().and_then(|s| s.parse().ok());
-        let Some(k) = file.split('/').next().and_then(|s| s.strip_prefix("rt")).and_then(|s| s.parse::<usize>().ok()) else {
+        let Some(k) = file
+            .split('/')
+            .next()
+            .and_then(|s| s.strip_prefix("rt"))
+            .and_then(|s| s.parse::<usize>().ok())
+        else {
             continue;
         };
-        let Some(case) = lineno.and_then(|ln| ln.checked_sub(2)).and_then(|i| line_maps.get(k).and_then(|m| m.get(i))).copied() else {
+        let Some(case) = lineno
+            .and_then(|ln| ln.checked_sub(2))
+            .and_then(|i| line_maps.get(k).and_then(|m| m.get(i)))
+            .copied()
+        else {
             continue;
         };
-        let message = rest.trim_start_matches(|c| c != ':').trim_start_matches(':').trim().to_string();
+        let message = rest
+            .trim_start_matches(|c| c != ':')
+            .trim_start_matches(':')
+            .trim()
+            .to_string();
         let code = if rest.starts_with('[') {
-            rest.trim_start_matches('[').split(']').next().unwrap_or("").to_string()
+            rest.trim_start_matches('[')
+                .split(']')
+                .next()
+                .unwrap_or("")
+                .to_string()
         } else {
             "error".to_string()
         };
-        compile_errors.entry(case).or_insert(FarmError { case, code, message });
+        compile_errors.entry(case).or_insert(FarmError {
+            case,
+            code,
+            message,
+        });
     }
     let mut failures = vec![];
     for m in &members {
@@ -338,10 +405,15 @@ pub fn roundtrip(cases: &[RtCase], n_crates: usize) -> Result<RtResult, String> 
         if !bin.exists() {
             continue; // did not compile: reported through compile_errors
         }
-        let o = Command::new(&bin).output().map_err(|e| format!("running {m}: {e}"))?;
+        let o = Command::new(&bin)
+            .output()
+            .map_err(|e| format!("running {m}: {e}"))?;
         let so = String::from_utf8_lossy(&o.stdout).to_string();
         if !so.contains("DONE") {
-            return Err(format!("round-trip binary {m} did not finish (status {:?})", o.status));
+            return Err(format!(
+                "round-trip binary {m} did not finish (status {:?})",
+                o.status
+            ));
         }
         for l in so.lines() {
             if let Some(r) = l.strip_prefix("FAIL ") {
@@ -359,7 +431,15 @@ pub fn roundtrip(cases: &[RtCase], n_crates: usize) -> Result<RtResult, String> 
     if compile_errors.is_empty() && !out.status.success() {
         return Err(format!(
             "cargo build failed without a diagnostic that maps to a case:\n{}",
-            stderr.lines().rev().take(30).collect::<Vec<_>>().into_iter().rev().collect::<Vec<_>>().join("\n")
+            stderr
+                .lines()
+                .rev()
+                .take(30)
+                .collect::<Vec<_>>()
+                .into_iter()
+                .rev()
+                .collect::<Vec<_>>()
+                .join("\n")
         ));
     }
     Ok(RtResult {
